@@ -228,6 +228,139 @@ theorem c06_progress (hr : Reachable cfg s) (hf : inFlight s = true) :
   · obtain ⟨i, sl, h1, h2⟩ := sent_index hf
     exact ⟨.gRelease i, Or.inr ⟨i, rfl⟩, by simp only [step, h1, h2]; simp⟩
 
+/-! ## The strengthened "not late": a force-flush drop that has left the mutex
+
+`DropAll::drop` takes the closure **and runs it** under the guard cell's mutex (`dgLock`, `lRun`, possibly the whole
+destructor, then `lUnlock`).  So a second force-flush guard's drop cannot get past `dgLock` while the first is between
+taking and having run the closure.  Consequence (next theorem): once *any* force-flush drop has left its critical
+section, the closure's reference on the value cell is gone for good and nobody is still about to release it; so as soon
+as the owner's drop has returned the entry has been appended — without any quiescence hypothesis, whatever flush
+guards are alive.  (Specification clause `Spec.forceLate`; judged on real traces, incl. gated ones.) -/
+
+/-- the closure has been taken and completely run (or dropped) and nobody is inside the destructor on its behalf -/
+def closureDone (s : St) : Prop := s.closure = false ∧ s.lPc ≠ .run ∧ s.lPc ≠ .app ∧ s.iPc ≠ .app
+
+theorem closureDone_relG (k : Kind) (hd : closureDone s) : closureDone (relG k s) := by
+  obtain ⟨h1, h2, h3, h4⟩ := hd
+  unfold relG; split <;> simp_all [closureDone]
+
+theorem closureDone_step {e : Ev} (h : step s e = some s') (hd : closureDone s) : closureDone s' := by
+  have hd' := hd
+  obtain ⟨h1, h2, h3, h4⟩ := hd
+  cases e
+  all_goals
+    simp only [step, dropFG, finishInner, setSlot] at h
+    (repeat' split at h) <;> (try cases h) <;>
+      first
+      | (simp_all [closureDone]; done)
+      | (apply closureDone_relG; simp_all [closureDone]; done)
+      | (split <;> first | (simp_all [closureDone]; done) | (apply closureDone_relG; simp_all [closureDone]; done))
+
+theorem closureDone_run {es : List Ev} (h : run s es = some s') (hd : closureDone s) : closureDone s' := by
+  induction es generalizing s with
+  | nil => simp [run] at h; subst h; exact hd
+  | cons e es ih =>
+    simp only [run] at h
+    split at h
+    · cases h
+    · rename_i s1 hs; exact ih h (closureDone_step hs hd)
+
+/-- **C06 a force-flush drop that has left the mutex is never overtaken.** Take any reachable state in which a
+force-flush guard's thread releases the mutex (`lUnlock`: its `DropAll::drop` is about to return), and any later
+schedule: in every later state in which the owner's (last owning reference's) drop has returned, the entry has been
+appended — no matter which flush guards are still alive and which other drops are in flight.  In particular another
+force-flush guard's drop cannot return before the append unless the owner is still there. -/
+theorem c06_force_return_appended {s1 s2 : St} {es : List Ev} (hr : Reachable cfg s)
+    (hu : step s .lUnlock = some s1) (hrun : run s1 es = some s2) (hown : s2.pPc = .done) :
+    s2.appended.length = 1 := by
+  have hi := inv_reachable hr
+  have hr1 : Reachable cfg s1 := Reachable.step _ hr hu
+  have hd1 : closureDone s1 := by
+    simp only [step] at hu
+    split at hu
+    · rename_i hl
+      have hcl := hi.lclos (Or.inl (by simp [hl]))
+      have hlock : s.lock = true := hi.lockpc.mpr (by simp [hl])
+      have hg := hi.gcount
+      have hz := hi.izero
+      cases hu
+      refine ⟨hcl, by simp, by simp, ?_⟩
+      intro hip
+      simp only at hip
+      have : s.gS = 0 := hz.mp (by simp [hip])
+      simp [hlock] at hg
+      omega
+    · cases hu
+  obtain ⟨c1, c2, c3, c4⟩ := closureDone_run hrun hd1
+  obtain ⟨h1,h2,h3,h4,h5,h6,h7,h8,h9,h10,h11,h11b,h12,h13,h14⟩ := inv_reachable (reachable_run es hr1 hrun)
+  dsimp only [nApp] at *
+  grind [pV, pG, pA, iA, lA, lV, b2n]
+
+/-- the corresponding state invariant: closure completely done ∧ owner's drop returned ⇒ appended -/
+theorem c06_closure_done_appended (hr : Reachable cfg s) (hd : closureDone s) (hown : s.pPc = .done) :
+    s.appended.length = 1 := by
+  obtain ⟨c1, c2, c3, c4⟩ := hd
+  obtain ⟨h1,h2,h3,h4,h5,h6,h7,h8,h9,h10,h11,h11b,h12,h13,h14⟩ := inv_reachable hr
+  dsimp only [nApp] at *
+  grind [pV, pG, pA, iA, lA, lV, b2n]
+
+/-! ### A non-atomic variant violates it
+
+Variant of the model in which `DropAll::drop` takes the closure under the mutex but runs it *after* releasing the
+mutex (seeded change C06-h).  `naTake` = lock; take; unlock (the thread now holds the taken closure outside the lock);
+`naRun` = run it (release the value reference; append if it was the last; then the thread is where `lUnlock` leaves
+it).  Every other event is the original `step`. -/
+
+structure StNA where
+  base : St
+  /-- threads holding a taken closure outside the mutex -/
+  holding : Nat := 0
+  deriving DecidableEq, Repr
+
+inductive EvNA where
+  | ev (e : Ev) | naTake | naRun
+  deriving DecidableEq, Repr
+
+def stepNA (t : StNA) : EvNA → Option StNA
+  | .ev e => (step t.base e).map fun b => { t with base := b }
+  | .naTake =>
+    if t.base.nUp > 0 ∧ t.base.lock = false ∧ t.base.closure = true then
+      some { base := { t.base with nUp := t.base.nUp - 1, closure := false, nDec := t.base.nDec + 1 }, holding := t.holding + 1 }
+    else none
+  | .naRun =>
+    if t.holding > 0 then
+      let b := t.base
+      if b.vS - 1 = 0 then
+        some { base := { b with vS := 0, appended := b.appended ++ [⟨b.plain, b.hits, closedVals b.slots⟩] }, holding := t.holding - 1 }
+      else some { base := { b with vS := b.vS - 1 }, holding := t.holding - 1 }
+    else none
+
+def runNA (t : StNA) : List EvNA → Option StNA
+  | [] => some t
+  | e :: es => match stepNA t e with
+    | none => none
+    | some t' => runNA t' es
+
+/-- the witness (the gated schedule of the harness): owner dropped, one flush guard alive, two force-flush guards;
+the first thread takes the closure and is held before running it; the second thread's drop goes through the (free)
+mutex, finds nothing and **returns** (`lUnlock`, `dgDec`): the owner's drop has returned, a force-flush drop has left
+the mutex, and nothing has been appended — `c06_force_return_appended`'s conclusion fails in the variant.  In the
+original model the second `dgLock` is simply not enabled at that point (next example). -/
+example : (runNA { base := init [] } [.ev .newFG, .ev .newDG, .ev .newDG, .ev .refDrop, .ev .pDecV, .ev .pDecG,
+            .ev .dgBegin, .ev .dgBegin, .naTake, .ev .dgLock, .ev .lUnlock, .ev .dgDec]).map
+      (fun t => (t.base.pPc, t.base.dgDone, t.base.fgLive, t.base.appended.length, t.holding))
+    = some (.done, 1, 1, 0, 1) := by decide
+
+/-- original model, same situation: while the first thread is between take and run it holds the mutex, the second
+thread cannot proceed (`dgLock` not enabled); after the first has run the closure (and appended) it can. -/
+example : (run (init []) [.newFG, .newDG, .newDG, .refDrop, .pDecV, .pDecG, .dgBegin, .dgBegin, .dgLock]).map
+      (fun s => ((step s .dgLock).isSome, s.lPc, s.appended.length))
+    = some (false, .run, 0) := by decide
+
+example : (run (init []) [.newFG, .newDG, .newDG, .refDrop, .pDecV, .pDecG, .dgBegin, .dgBegin, .dgLock, .lRun,
+            .emit, .lUnlock, .dgLock, .lUnlock, .dgDec]).map (fun s => (s.dgDone, s.fgLive, s.appended.length))
+    = some (1, 1, 1) := by decide
+
 /-! ## Non-vacuity: concrete schedules (kernel-evaluated) -/
 
 /-- a racing schedule: one flush guard, one force-flush guard; the owner's thread is between its two field
@@ -264,3 +397,5 @@ end KeepAlive
 #print axioms KeepAlive.c06_content
 #print axioms KeepAlive.c06_content_snapshot
 #print axioms KeepAlive.c06_progress
+#print axioms KeepAlive.c06_force_return_appended
+#print axioms KeepAlive.c06_closure_done_appended
